@@ -53,14 +53,32 @@ type VerifC41Nego struct {
 type verifC41Conn struct {
 	in  []byte
 	out []byte
+	// read script: sizes of successive Read results (0 = a read that returns no data and no error); when exhausted
+	// the rest is delivered in one piece.  eofWithData: the last piece is returned together with io.EOF.
+	chunks      []int
+	eofWithData bool
 }
 
 func (f *verifC41Conn) Read(p []byte) (int, error) {
 	if len(f.in) == 0 {
 		return 0, io.EOF
 	}
-	n := copy(p, f.in)
+	n := len(f.in)
+	if len(f.chunks) > 0 {
+		n = f.chunks[0]
+		f.chunks = f.chunks[1:]
+		if n > len(f.in) {
+			n = len(f.in)
+		}
+	}
+	if n > len(p) {
+		n = len(p)
+	}
+	copy(p, f.in[:n])
 	f.in = f.in[n:]
+	if len(f.in) == 0 && f.eofWithData {
+		return n, io.EOF
+	}
 	return n, nil
 }
 func (f *verifC41Conn) Write(p []byte) (int, error) { f.out = append(f.out, p...); return len(p), nil }
@@ -105,13 +123,24 @@ func VerifC41ReadClientHello(cfg *Config, h *VerifC41Hello) *VerifC41Nego {
 	}
 	body := m.marshal()
 	rec := []byte{byte(recordTypeHandshake), 3, 1, byte(len(body) >> 8), byte(len(body))}
-	fc := &verifC41Conn{in: append(rec, body...)}
+	return verifC41Run(cfg, &verifC41Conn{in: append(rec, body...)}, h.Vip, len(h.Curves))
+}
+
+// VerifC41ReadClientHelloWire feeds wire bytes built by the harness (one or more complete TLS records carrying a
+// ClientHello, possibly fragmented over several records) to a fresh server connection, delivered according to the
+// read script (see verifC41Conn), and runs the real readClientHello (readHandshake / readRecord included).
+// nCurves = number of curves in the hello's supported_curves extension (to notice the ECDHE-without-extension fallback).
+func VerifC41ReadClientHelloWire(cfg *Config, wire []byte, chunks []int, eofWithData bool, vip net.IP, nCurves int) *VerifC41Nego {
+	fc := &verifC41Conn{in: append([]byte(nil), wire...), chunks: append([]int(nil), chunks...), eofWithData: eofWithData}
+	return verifC41Run(cfg, fc, vip, nCurves)
+}
+
+func verifC41Run(cfg *Config, fc *verifC41Conn, vip net.IP, nCurves int) *VerifC41Nego {
 	c := Server(fc, cfg)
-	if h.Vip != nil {
-		c.param = verifC41Param{h.Vip}
+	if vip != nil {
+		c.param = verifC41Param{vip}
 	}
 	hs := serverHandshakeState{c: c}
-	nCurves := len(h.Curves)
 	isResume, err := hs.readClientHello()
 	res := &VerifC41Nego{Alert: -1, Resume: isResume, Vers: c.vers, ClientProto: c.clientProtocol, ClientAuth: int(c.clientAuth)}
 	if err != nil {
